@@ -21,7 +21,7 @@ RULE = ("case = (member, input style, how inputs were frozen {freeze_data, "
 ASSUMPTIONS = ["class-level wrappers observe every AurelCore instance incl. those created inside over_time",
                "eviction paths identified by sys.monitoring LINE events on cleanup_cache"]
 TIMEOUT = {"quick": 1800, "thorough": 7000}
-MIN_NONTRIVIAL = {"quick": 20, "thorough": 60}
+MIN_NONTRIVIAL = {"quick": 20, "thorough": 30}
 CONTAINERS = ['dtconserved', 'Weyl_Psi', 'Weyl_invariants', 'Psi4_lm']
 
 
